@@ -17,14 +17,14 @@ RULE = ("cases = generated design specs K1-K11 (stride/start variety, Nest susta
         "constructed block with >= 2 encoded factors and >= 2 trials; distinct = spec hashes. Per case the whole "
         "variable table is checked and N_DECODE random one-hot assignments are decoded")
 ASSUMPTIONS = ["applicability of a derived factor at a trial = documented start/stride rule (vlib/spec.py applies)"]
-MINIMUMS = {"quick": {"triples_checked": 20000, "assignments_decoded": 5000, "designs_with_complex_window": 80},
-            "thorough": {"triples_checked": 300000, "assignments_decoded": 80000, "designs_with_complex_window": 1200}}
+MINIMUMS = {"quick": {"triples_checked": 25000, "assignments_decoded": 15000, "designs_with_complex_window": 150},
+            "thorough": {"triples_checked": 350000, "assignments_decoded": 200000, "designs_with_complex_window": 2000}}
 CASE_TIMEOUT = 120
 N_DECODE = 25
 
 
 def cases(tier, seed):
-    return D.spec_cases(tier, seed, None, 500, 7000, "c14")
+    return D.spec_cases(tier, seed, None, 1100, 14000, "c14")
 
 
 def run_case(case):
